@@ -119,7 +119,10 @@ class Engine:
 
     def __init__(s, mod, max_steps=3_000_000, max_paths=200000, max_depth=120, solver_timeout_ms=20000, deadline=None):
         s.m = mod
+        # QF_ABV is the fast configuration, but it silently treats floating-point predicates as uninterpreted (over-approximation:
+        # spurious paths that never reproduce natively). The first symbolic floating-point term of a run switches to QF_ABVFP.
         s.solver = z3.SolverFor('QF_ABV')
+        s.solver_timeout_ms = solver_timeout_ms; s.fp_logic = False
         s.solver.set('timeout', solver_timeout_ms)
         s.spc = []            # constraints currently asserted in the solver (one push scope each)
         s.max_steps = max_steps; s.max_paths = max_paths; s.max_depth = max_depth
@@ -151,6 +154,13 @@ class Engine:
         models.install(s)
 
     # ------------------------------------------------------------------ solver
+    def need_fp(s):
+        """called when a symbolic IEEE term is created: from now on the solver must know the floating-point theory"""
+        if s.fp_logic: return
+        s.fp_logic = True
+        s.solver = z3.SolverFor('QF_ABVFP'); s.solver.set('timeout', s.solver_timeout_ms)
+        s.spc = []            # nothing is asserted in the new solver yet: the next sync re-asserts the path condition
+
     def sync(s, st):
         pc = st.pc; spc = s.spc
         n = min(len(pc), len(spc)); k = 0
